@@ -118,6 +118,12 @@ def gen(rng, idx, tier):
         glyphs[0]["anchors"] = [{"name": "top", "x": 100, "y": 500}]
         glyphs[-1]["anchors"] = [{"name": "_top", "x": 10, "y": 20}]
         glyphs[-1]["unicodes"] = [0x301]
+        if len(glyphs) > 3 and rng.random() < 0.5:
+            # the font already HAS a dotted circle, without (all) the anchors the marks need
+            dc = glyphs[1]
+            dc["unicodes"] = [0x25CC]
+            dc["anchors"] = [] if rng.random() < 0.7 else [{"name": "bottom", "x": 50, "y": -20}]
+            case["own_dotted_circle"] = dc["name"]
     case["fonts"] = [glyphs]
     if interp:
         case["fonts"] += [perturbed(rng, glyphs) for _ in range(rng.choice([1, 2]))]
@@ -276,6 +282,8 @@ def _run(case, bump, counters, tmp):
         return {"status": "violated", "counters": counters, "violations": [
             {"mech": "filter_exception", "detail": {"filter": name, "trace": tb[-2500:]}}]}
     bump("evaluated_" + name)
+    if case.get("own_dotted_circle"):
+        bump("dotted_circle_present_in_source")
     bump("select_" + case["select"]["kind"])
     bump("target_" + ("inplace" if target == "inplace" else "copy"))
     # ---------------- clause 3: source untouched when a separate glyph set is given
@@ -378,7 +386,12 @@ def classify(v, case):
         if all("." in g for g in v["detail"].get("glyphs", [])):
             return "explode_color_layers_added_glyphs_not_reported"
     if name == "DottedCircleFilter" and v["mech"] == "source_font_modified":
-        return "dotted_circle_filter_writes_source"
+        # the listed mechanism writes the categories lib entry and the feature text, nothing else
+        paths = [d[0] for d in v["detail"].get("diff", [])]
+        if paths and all(p == "/features" or p.startswith("/lib/") and "public.openTypeCategories" in p
+                         for p in paths):
+            return "dotted_circle_filter_writes_source"
+        return None
     if (name.startswith("PropagateAnchors") and v["mech"] == "filter_exception"
             and "is the lowest" in v["detail"].get("trace", "")
             and "'NoneType' object is not subscriptable" in v["detail"].get("trace", "")):
